@@ -1,5 +1,5 @@
 \* THOROUGH: repaired design, chain <= 4, 2 source steps (<= 2 reorgs), 1 fault, safety.
-\* Measured: 8 628 206 distinct / 33 047 000 generated states, depth 85, ~4.5 min on 6 cores
+\* Measured: 10 191 143 distinct / 39 338 206 generated states (8 628 206 / 33 047 000, depth 85, ~4.5 min on 6 cores before the class dimension)
 CONSTANTS
   InitLen = 3
   MaxLen = 4
@@ -16,11 +16,16 @@ CONSTANTS
   FixRevertVerify = TRUE
   FixUnderflow = TRUE
   Fine = FALSE
-  EmptyDiff = {2, 4}
+  EmptyDiff = {}
   RootCheckedOnEmptyDiff = TRUE
   VerdictPerAnswer = TRUE
+  ClassA = {2, 4, 5}
+  ClassB = {3, 5}
+  SierraSet = {2}
+  RememberKnown = FALSE
+  Windows = FALSE
 INIT Init
 NEXT Next
-INVARIANTS TypeOK LocalIsSourceBlocks ReorgExact StoredOnlyVerified
-PROPERTIES StoreSafe HeadMovesOnlyByStoreOrRevert RevertsJustified RevertsHaveEvidence
+INVARIANTS TypeOK LocalIsSourceBlocks ReorgExact StoredOnlyVerified ClassesExact StoredClassesComplete KnownIsCurrent
+PROPERTIES StoreSafe HeadMovesOnlyByStoreOrRevert RevertsJustified RevertsHaveEvidence NewClassesSufficient
 CHECK_DEADLOCK TRUE
